@@ -254,6 +254,11 @@ def c01_targeted_cases(rng, count=None, maxdeg=12, big=False):
     out.append(sec_case("sec_tiny_weights", [((Fr(1, 1 << 40), Fr(0)), (Fr(j), Fr(0))) for j in range(1, 5)]))
     out.append(sec_case("sec_big_weights", [((Fr((-1) ** j * (1 << 30)), Fr(0)), (Fr(j, 3), Fr(0))) for j in range(1, 6)]))
     out.append(sec_case("sec_cplx", [((Fr(rng.randint(1, 9)), Fr(rng.randint(-9, 9))), (Fr(rng.randint(-9, 9)), Fr(j))) for j in range(4)]))
+    # two secular equations on which the classic algorithm (DPE phase) returned a radius smaller than the error
+    out.append(sec_case("sec_regress_a", [((Fr(-2), Fr(0)), (Fr(5, 3), Fr(0))), ((Fr(-12, 7), Fr(0)), (Fr(-39, 4), Fr(0)))]))
+    out.append(sec_case("sec_regress_b", [((Fr(21629414, 182406595), Fr(-321243099, 364813190)), (Fr(0), Fr(-11, 2))),
+                                          ((Fr(921166927, 61917835), Fr(447349, 8845405)), (Fr(-14), Fr(10))),
+                                          ((Fr(109233881, 19338235), Fr(14931473, 19338235)), (Fr(-5), Fr(-7)))]))
     # secular form of a random complex integer polynomial (the family on which C19 met radii that are too small)
     for j in range(2 if not big else 6):
         d = rng.randint(2, min(maxdeg, 6))
